@@ -21,6 +21,18 @@ def impl_main(mode, fin, fout):
     for c in cases:
         try:
             p = c09.parse_text(c["text"])
+            if c.get("reparse"):
+                # the same parser object first used without the charge-conjugate decays (every name asked for), then parsed again as usual
+                import warnings
+                with warnings.catch_warnings():
+                    warnings.simplefilter("ignore")
+                    p.parse(include_ccdecays=False)
+                    for nm in c["reparse"]:
+                        try:
+                            p.expand_decay_modes(nm)
+                        except Exception:  # noqa: BLE001
+                            pass
+                    p.parse()
         except Exception as e:
             out.append([{"err": "parse:" + type(e).__name__}] * len(c["mothers"]))
             continue
@@ -57,6 +69,15 @@ def count_paths(stmts, m):
         memo[p] = tot
         return tot
     return cnt(m) if m in tabs else None
+
+
+def count_paths_cc(stmts, m):
+    """count_paths with the table CDecay MyCAbar derives from MyCA's (same number of lines and daughters)"""
+    st2 = [list(st) for st in stmts]
+    src = next((st for st in st2 if st[0] == "Decay" and st[1] == "MyCA"), None)
+    if src is not None:
+        st2.append(["Decay", "MyCAbar", src[2]])
+    return count_paths(st2, m)
 
 
 def oracle_expand(stmts, aliases, m):
@@ -126,7 +147,22 @@ def gen_cases(rng, tier):
         if not mothers:
             continue
         mothers = mothers[:4] + ([rng.choice(leaves)] if rng.random() < 0.1 else [])
-        cases.append({"stmts": allst, "text": decgen.render(allst), "mothers": mothers, "aliases": aliases})
+        case = {"stmts": allst, "text": decgen.render(allst), "mothers": mothers, "aliases": aliases}
+        if rng.random() < 0.2:
+            # a daughter whose table exists only through CDecay (aliased conjugate pair), on a parser object that was first used
+            # without the charge-conjugate decays and then parsed again
+            first = next((st for st in allst if st[0] == "Decay" and st[1] == mothers[0] and st[2]), None)
+            if first is not None:
+                first[2][0]["fs"].append("MyCAbar")
+                extra = [["Alias", "MyCA", "D0"], ["Alias", "MyCAbar", "anti-D0"], ["ChargeConj", "MyCA", "MyCAbar"],
+                         ["Decay", "MyCA", [{"bf": "1.0", "fs": ["p+", "anti-Lambda_b0"], "photos": False, "model": "PHSP", "params": None},
+                                            {"bf": "0.5", "fs": ["p+", "anti-Lambda_b0", "Sigma_b+"], "photos": False, "model": "PHSP", "params": None}]],
+                         ["CDecay", "MyCAbar"]]
+                allst2 = allst + extra
+                if (count_paths_cc(allst2, mothers[0]) or 0) <= 800:
+                    case = {"stmts": allst2, "text": decgen.render(allst2), "mothers": mothers, "aliases": dict(aliases, MyCA="D0", MyCAbar="anti-D0"),
+                            "reparse": mothers + ["MyCAbar", "MyCA"], "post": True}
+        cases.append(case)
     return cases
 
 
@@ -142,16 +178,22 @@ def main():
     cases = json.loads(Path(args.replay).read_text())["cases"] if args.replay else gen_cases(ck.rng, args.tier)
     impl = vlib.run_impl("c10.py", cases)
     flat, terms, fimpl = [], [], []
+    import decpost
     for c, res in zip(cases, impl):
         T = c09.coq_tables(c09.first_tables(c["stmts"]))
+        if c.get("post"):
+            # tables as parse() derives them (CDecay): the value model of parse() (coq/Dec/Post.v)
+            T = f"(match parse_post cc sc_of true {decpost.coq_stmts(c['stmts'])} with inl T0 => T0 | inr _ => [] end)"
         al = clist([f"({cstr(k)}, {cstr(v)})" for k, v in c["aliases"].items()]) if c["aliases"] else "[]"
         al = clist([f"({cstr(st[1])}, {cstr(st[2])})" for st in c["stmts"] if st[0] == "Alias"])
         for m, r in zip(c["mothers"], res):
-            flat.append({"stmts": c["stmts"], "text": c["text"], "mothers": [m], "aliases": c["aliases"]})
+            flat.append({"stmts": c["stmts"], "text": c["text"], "mothers": [m], "aliases": c["aliases"], "reparse": c.get("reparse"), "post": c.get("post")})
             terms.append(f"match build 60 {T} [] {cstr(m)} with Some (Some c) => vstrs (expand default_cfg (pd_of_list {al}) true c) "
                          f"| Some None => VErr \"DecayNotFound\" | None => VErr \"OutOfFuel\" end")
             fimpl.append(r)
-    model = vlib.run_model("C10", ["Lib.PyDict", "Fmt.DescFormat", "Decay.ChainDict", "Dec.Tables"], "fun v : val => v", terms, shard=150)
+    model = vlib.run_model("C10", ["Lib.PyDict", "Fmt.DescFormat", "Decay.Conj", "Decay.GenTables", "Decay.ChainDict", "Dec.Tables", "Dec.Syntax", "Dec.Post"],
+                           "fun v : val => v", terms, shard=150,
+                           preamble="Definition sc_of (n : string) : option bool := pd_get n (t_selfconj gen_tables).")
     diffs = vlib.compare_veq(ck, flat, fimpl, model)
     sizes = [len(r) for r in fimpl if isinstance(r, list)]
     ck.cov["distinct_nontrivial"] = len({c["text"] + c["mothers"][0] for c, r in zip(flat, fimpl) if isinstance(r, list) and len(r) > 1})
@@ -167,6 +209,14 @@ def main():
             c = flat[i]
             m = c["mothers"][0]
             al = {st[1]: st[2] for st in c["stmts"] if st[0] == "Alias"}
+            if c.get("post"):
+                # fresh parser objects as the reference
+                one = vlib.run_impl("c10.py", [dict(c, reparse=None)], nshards=1)[0][0]
+                if fimpl[i] != one:
+                    hits.append((c, "descriptors differ on a parser object that was parsed without the charge-conjugate decays, queried, and parsed again"))
+                elif fimpl[i] != model[i]:
+                    hits.append((c, "descriptor list is not the enumeration of complete paths"))
+                continue
             if count_paths(c["stmts"], m) is None:
                 continue
             exp = oracle_expand(c09.first_tables(c["stmts"]), al, m)
